@@ -129,34 +129,6 @@ Fixpoint mrun (V : variant) (e : env) (ops : list op) : bool :=
 Definition model_variant : variant := current.
 Definition mismatch (c : case_t) : bool := mrun model_variant [] c.
 
-(* ---- validity of a frame for an encoder state (the "valid frame over the agreed channel
-   set" of the property) ---- *)
-Fixpoint var_wf (fuel : nat) (bs : list N) : bool :=
-  match fuel with
-  | O => match bs with [] => true | _ => false end
-  | S f =>
-      match bs with
-      | [] => true
-      | _ => if lenN bs <? 4 then false
-             else let l := decLE (firstn 4 bs) in
-                  let rest := skipn 4 bs in
-                  if lenN rest <? l then false else var_wf f (skipn (N.to_nat l) rest)
-      end
-  end.
-Definition data_wf (dt : N) (data : list N) : bool :=
-  all_bytes data && (lenN data <? two32) &&
-  (if is_variable dt then var_wf (length data) data
-   else negb (density dt =? 0) && (lenN data mod density dt =? 0)).
-Definition series_valid (s : series) : bool :=
-  data_wf (s_dt s) (s_data s) && (s_ts s <? two64) && (s_te s <? two64) && (s_al s <? two64).
-Definition state_known (st : cstate) : bool :=
-  forallb (fun p => negb (dt_undefined (snd p))) (st_dts st) &&
-  forallb (fun k => k <? two32) (st_keys st).
-Definition frame_valid (st : cstate) (f : frame) : bool :=
-  state_known st &&
-  forallb (fun ks => series_valid (snd ks)) (keep st f) &&
-  match validate st (keep st f) with None => true | Some _ => false end.
-
 (* ---- the monitor ---- *)
 (* last successful encode: encoder state, sequence number, frame, emitted bytes *)
 Definition lastenc := option (cstate * N * frame * list N).
